@@ -12,7 +12,8 @@
 From Coq.Strings Require Import Byte String.
 From Coq Require Import List NArith Arith.
 Import ListNotations.
-From V Require Import lib.Bytes spec.RenderSpec model.Bufio model.RenderSkel proofs.BufioProof proofs.RenderSkelProof.
+From V Require Import lib.Bytes spec.RenderSpec spec.RenderDestSpec model.Bufio model.RenderSkel model.RenderDest
+                      proofs.BufioProof proofs.RenderSkelProof proofs.RenderDestProof.
 Local Open Scope nat_scope.
 
 (* If Render returns nil, the destination accepted exactly the document, once and in order (and the program had
@@ -145,6 +146,43 @@ Theorem C10_no_spin_under_contract :
 Proof. exact render_top_no_spin. Qed.
 Print Assumptions C10_no_spin_under_contract.
 
+(* The destination is a buffered writer of the CALLER (a *bufio.Writer of any size in front of any writer): the
+   caller renders into it and then flushes it.  Stated on the writer behind the caller's: it is handed a prefix of
+   the document - the whole document when Render and the caller's Flush both return nil; a refusal of that writer
+   during Render comes back from Render (unless the program had failed first), any refusal comes back from the
+   caller's Flush; its http.Flusher is not called; and once the caller has flushed (and, after an error, Reset) its
+   writer, that writer is as new - so every later render into the same object starts like this one. *)
+Theorem C10_buffered_destination :
+  forall (inner_st : Type) (inner : inner_st -> bytes -> nat * option err * inner_st) (size : nat),
+  (forall s p, fst (fst (inner s p)) <= length p) ->
+  forall (cap : nat) (esc : bytes -> bytes) (env : list nat -> N -> bytes * option N) (benv : list nat -> N -> bool)
+         (senv cnt : list nat -> N -> nat) (cancel : option N),
+  0 < cap ->
+  forall pool choice g body (s0 : inner_st),
+  let o := render_wrapped inner_st inner size cap esc env benv senv cnt cancel pool choice g body s0 in
+  spec_wrap_ok (fst (denote esc env benv senv cnt cancel (Templ g body) [])) (snd (denote esc env benv senv cnt cancel (Templ g body) []))
+               (wo_res o) (wo_fres o) (wo_got o) (wo_log1 o) (wo_log2 o) 0 /\
+  wo_marks o = [] /\ wo_after o = bw_fresh.
+Proof. exact wrapped_spec. Qed.
+Print Assumptions C10_buffered_destination.
+
+(* ... whatever templ's pool holds and hands out. *)
+Theorem C10_buffered_destination_pool_independent :
+  forall (inner_st : Type) (inner : inner_st -> bytes -> nat * option err * inner_st) (size : nat)
+         (cap : nat) (esc : bytes -> bytes) (env : list nat -> N -> bytes * option N) (benv : list nat -> N -> bool)
+         (senv cnt : list nat -> N -> nat) (cancel : option N) pool choice g body (s0 : inner_st),
+  render_wrapped inner_st inner size cap esc env benv senv cnt cancel pool choice g body s0
+  = render_wrapped inner_st inner size cap esc env benv senv cnt cancel [] 0 g body s0.
+Proof. exact wrapped_pool_irrelevant. Qed.
+Print Assumptions C10_buffered_destination_pool_independent.
+
+(* A render is handed one of the caller's destination objects; the others are exactly what they were. *)
+Theorem C10_other_destinations_untouched :
+  forall (A B : Type) (f : A -> B * A) (st : list A) (i k : nat),
+  k <> i -> nth_error (snd (on_slot A f st i)) k = nth_error st k.
+Proof. exact @on_slot_frame. Qed.
+Print Assumptions C10_other_destinations_untouched.
+
 (* ---------- witnesses ---------- *)
 (* what Buffer.Reset in GetBuffer is for: without it the render after a failed one inherits its sticky error *)
 Lemma C10_leak_without_acquire_reset :
@@ -212,6 +250,22 @@ Example C10_ex_loop_iteration_fails :
     = (Some (ETempl (bs "t.templ") 5%N 2%N (EExpr 6%N)), bs "<p>&lt;v&gt;in0123456789fl<hr>B open(0)(1)(").
 Proof. vm_compute. reflexivity. Qed.
 Example C10_ex_cancelled : ex_render false (Some 1%N) false 0%N 0 = (Some (ECtx 1%N), []).
+Proof. vm_compute. reflexivity. Qed.
+(* the same program into the caller's bufio.Writer (size 8) in front of a writer that fails after 9 bytes / never *)
+Definition ex_wrapped (failing : bool) (mode : N) (limit : nat) :=
+  let o := render_wrapped fsink fsink_step 8 4 html_escape (ex_env false) ex_benv ex_senv ex_cnt None [] 0 true (ex_body failing)
+             {| f_mode := mode; f_limit := limit; f_tripped := false; f_err := 3%N |} in
+  (wo_res o, wo_fres o, wo_got o).
+Example C10_ex_wrapped_complete :
+  ex_wrapped false 0%N 0 = (None, None, bs "<p>&lt;v&gt;in0123456789fl<hr>B open(0)(1)(2)(3)s1&lt;v&gt;</p>").
+Proof. vm_compute. reflexivity. Qed.
+Example C10_ex_wrapped_sink_fails : ex_wrapped false 1%N 9 = (Some (ESink 3%N), Some (ESink 3%N), bs "<p>&lt;v&").
+Proof. vm_compute. reflexivity. Qed.
+(* the writer behind fails only when the caller flushes: Render itself returns nil *)
+Example C10_ex_wrapped_fails_in_callers_flush :
+  let o := render_wrapped fsink fsink_step 64 4 html_escape (ex_env false) ex_benv ex_senv ex_cnt None [] 0 true [Lit (bs "hello world")]
+             {| f_mode := 1%N; f_limit := 5; f_tripped := false; f_err := 3%N |} in
+  (wo_res o, wo_fres o, wo_got o, wo_thru o) = (None, Some (ESink 3%N), bs "hello", 0).
 Proof. vm_compute. reflexivity. Qed.
 Example C10_ex_contract : forall s p n s', p <> [] -> f_mode s <> 4%N -> fsink_step s p = (n, None, s') ->
   f_mode s = 0%N \/ f_mode s = 3%N \/ 0 < n \/ f_limit s = 0.
